@@ -1328,6 +1328,233 @@ def run_concurrent(ctx, res, big):
 
 
 # ----------------------------------------------------------------------------------------
+# concurrent part 2: change requests racing other threads that work on the SAME parameter
+# (requests of other connections, the poller reading the hardware, module code writing)
+# clause: "invoked ... with exactly the validated value (a partial struct merged into the current value)"
+# ----------------------------------------------------------------------------------------
+def gen_merge_dtspec(rng):
+    """datatypes for which the value handed to the driver depends on the cached value (structs with optional members,
+    also inside arrays / tuples), and a share of arbitrary others (nothing to merge: the payload alone decides)"""
+    def struct():
+        names = rng.sample(['a', 'b', 'c', 'dd'], rng.randint(2, 4))
+        optional = [n for n in names if rng.random() < 0.75] or [names[0]]
+        return ['struct', [[n, gen_dtspec(rng, depth=rng.choice([1, 2, 2]))] for n in names], optional]
+    r = rng.random()
+    if r < 0.6:
+        return struct()
+    if r < 0.72:
+        lo = rng.choice([0, 1])
+        return ['array', struct(), lo, lo + rng.choice([1, 2, 3])]
+    if r < 0.82:
+        return ['tuple', [struct(), gen_dtspec(rng, depth=2)]]
+    return gen_dtspec(rng)
+
+
+def gen_merge_case(rng):
+    spec = gen_merge_dtspec(rng)
+
+    def full():
+        return gen_valid(rng, spec)
+
+    def action(kinds, weights):
+        k = rng.choices(kinds, weights)[0]
+        if k == 'change':
+            r = rng.random()
+            if r < 0.75:
+                return ['change', gen_valid(rng, spec, partial=True)]
+            return ['change', gen_payload(rng, spec)[0]]
+        return [k, full()]        # 'read': what the hardware says now; 'write': module code writes a complete value
+    threads = [[action(['change'], [1]) for _ in range(rng.choice([1, 1, 2]))],
+               [action(['change', 'read', 'write'], [5, 3, 2]) for _ in range(rng.choice([1, 1, 2]))]]
+    if rng.random() < 0.25:
+        threads.append([action(['change', 'read', 'write'], [4, 3, 3])])
+    return {'dt': spec, 'init': full(), 'threads': threads, 'ret': rng.choice(['value', 'value', 'none'])}
+
+
+def merge_run(case, policy):
+    """one schedule of: every thread works through its actions on parameter `par` of one module — `change m:_par <payload>`
+    on its own connection, `read_par()` after the hardware value changed (poller), `write_par(v)` (module code).
+    Real SecNode + Dispatcher + wrappers under vlib.sched.  Recorded: the events of the change section, and for every
+    driver call the payload of the request that caused it, the cached value at that moment and the value given."""
+    import frappy.modulebase
+    import frappy.protocol.dispatcher
+    from frappy.modules import Module
+    from frappy.params import Parameter
+    from vlib.node import Node
+    from vlib.sched import Scheduler
+    s = Scheduler(policy=policy, max_steps=6000)
+    events, calls, replies = [], [], []
+    doing = {}          # thread -> the action it is working on
+
+    def tid():
+        me = s.me()
+        return int(me.name[1:]) if me is not None else 0
+
+    dtobj = mk_dtype(case['dt'])
+    init = dtobj.import_value(case['init'])
+    with s.patched(frappy.modulebase, threading=s.threading, time=s.time, mkthread=s.mkthread), \
+            s.patched(frappy.protocol.dispatcher, threading=s.threading, currenttime=s.time):
+        class MM(Module):
+            enablePoll = False
+            par = Parameter('the parameter', dtobj, readonly=False, default=init)
+            hw = init
+
+            def read_par(self):
+                return self.hw
+
+            def write_par(self, value):
+                t = tid()
+                kind, payload = doing.get(t, ('?', None))
+                if kind == 'change':
+                    events.append(['call', t])
+                    calls.append((t, payload, self.par, value))
+                else:
+                    events.append(['direct', t])
+                self.hw = value
+                return value if case['ret'] == 'value' else None
+        node = Node({'m': {'cls': MM, 'description': 'm'}}, omit_unchanged_within=0)
+        mo = node.modules['m']
+        mo.accessLock = RecLock(mo.accessLock, events, tid)
+        dt = mo.parameters['par'].datatype
+        plain_validate = dt.validate
+
+        def validate(value, previous=None):
+            # `validate(value, previous=<cached value>)` is the merge of the payload into the current value
+            if previous is not None:
+                events.append(['merge', tid(), doing.get(tid(), ('?', None))[1]])
+            return plain_validate(value, previous)
+        dt.validate = validate
+        mo.addCallback('par', lambda value, *err: events.append(['store', tid(), value]) if not err else None)
+        start = mo.par
+        conns = [node.connect() for _ in case['threads']]
+
+        def worker(i, actions):
+            for kind, data in actions:
+                doing[i + 1] = (kind, data)
+                if kind == 'change':
+                    replies.append([i + 1, reply_obs(node.request(conns[i], 'change', 'm:_par', data))])
+                else:
+                    try:
+                        value = dtobj.import_value(data)
+                        if kind == 'read':
+                            mo.hw = value
+                            mo.read_par()
+                        else:
+                            mo.write_par(value)
+                    except Exception:
+                        pass
+            s.yield_(('end',))
+        for i, actions in enumerate(case['threads']):
+            s.spawn('t%d' % (i + 1), worker, (i, actions))
+        result = s.run(wall_timeout=20)
+        final = mo.par
+    import logging
+    registry = logging.Logger.manager.loggerDict
+    for k in [k for k in registry if k == node.root.name or k.startswith(node.root.name + '.')]:
+        del registry[k]
+    return s, {'events': events, 'calls': calls, 'replies': replies, 'result': result, 'start': start, 'final': final,
+               'dtobj': dtobj}
+
+
+def merge_request(case, obs):
+    """the driver request for one run, None when something cannot travel to the Lean side"""
+    from vlib import dtcodec
+    try:
+        tree = dtcodec.dt_to_tree(obs['dtobj'])
+    except Exception:
+        return None
+    vals = [obs['start']] + [e[2] for e in obs['events'] if e[0] in ('merge', 'store')] + \
+           [x for c in obs['calls'] for x in c[1:]]
+    if not all(dtcodec.encodable(v) for v in vals):
+        return None
+    if not all(dtcodec.is_json_value(e[2]) for e in obs['events'] if e[0] == 'merge') or \
+            not all(dtcodec.is_json_value(c[1]) for c in obs['calls']):
+        return None
+    acts = [e[:2] + [dtcodec.py_to_json(e[2])] if e[0] in ('merge', 'store') else list(e) for e in obs['events']]
+    return {'p': PID, 'k': 'changerun', 'dtree': tree, 'init': dtcodec.py_to_json(obs['start']), 'acts': acts,
+            'calls': [[t, dtcodec.py_to_json(p), dtcodec.py_to_json(cur), dtcodec.py_to_json(v)] for t, p, cur, v in obs['calls']]}
+
+
+def merge_verdict(obs, a):
+    """reads the Lean side's answer for one run -> (violation or None, disagreement or None)"""
+    if 'driver_error' in a:
+        raise RuntimeError('driver error: %s' % a['driver_error'])
+    viol = dis = None
+    for (t, payload, cur, v), ok, exp in zip(obs['calls'], a['calls'], a['expected']):
+        if not ok:
+            viol = ('C04:concurrent:call-not-merged-into-current-value',
+                    f'change m:_par {canonj(payload)} (thread {t}): write_par was given {canon(v)} while the cached value was '
+                    f'{canon(cur)}; the payload merged into the current value is {json.dumps(exp)} (another thread changed the '
+                    f'parameter between the merge and the driver call); replies {obs["replies"]}')
+            break
+    if not a['ok']:
+        dis = {'model': 'the events are not a run of the change-section system (merge / driver call / store outside one '
+                        'accessLock section)', 'impl': {'events': [e[:2] for e in obs['events']]}}
+    elif not a['same']:
+        dis = {'model': 'the change-section system predicts other driver calls', 'impl': {'calls': [
+            [t, canonj(p), canon(cur), canon(v)] for t, p, cur, v in obs['calls']]}}
+    return viol, dis
+
+
+def merge_judge(ctx, case, obs):
+    """-> (violation or None, disagreement or None); everything is decided by the Lean side"""
+    req = merge_request(case, obs)
+    if req is None:
+        return 'skip', None
+    return merge_verdict(obs, ctx.driver.batch([req])[0])
+
+
+def run_merging(ctx, res, big):
+    from vlib.sched import explore
+    ncases = ctx.budget(30, 300)
+    reported = False
+    ndis = 0
+    cases = []
+    cdir = os.path.join(ctx.verif, 'corpus', PID)
+    if os.path.isdir(cdir):
+        for fn in sorted(os.listdir(cdir)):
+            entry = json.load(open(os.path.join(cdir, fn)))
+            if 'merging' in entry:
+                cases.append(entry['merging'])
+    cases += [gen_merge_case(ctx.rng) for _ in range(ncases)]
+    for case in cases:
+        kinds = sorted({a[0] for th in case['threads'][1:] for a in th})
+        runs, reqs = [], []
+        for prefix, sched, obs in explore(lambda pol: merge_run(case, pol), max_preemptions=2, max_runs=50 if big else 24):
+            if obs['result']['aborted'] not in (None,):
+                raise RuntimeError(f'scheduler aborted ({obs["result"]["aborted"]}) on {case}')
+            req = merge_request(case, obs)
+            if req is None:
+                res.count('merging.not-encodable')
+                break
+            runs.append((list(prefix), obs))
+            reqs.append(req)
+        for (prefix, obs), a in zip(runs, ctx.driver.batch(reqs)):
+            viol, dis = merge_verdict(obs, a)
+            res.evaluations += 1
+            res.traces += 1
+            res.count('merging.schedules')
+            res.count('merging.dt.' + case['dt'][0])
+            res.count('merging.driver-calls', len(obs['calls']))
+            for k in kinds:
+                res.count('merging.other-thread.' + k)
+            for _, r in obs['replies']:
+                res.count('merging.reply.' + (r[0] if r[0] != 'error' else r[1]))
+            if len(obs['calls']) >= 1 and len({e[1] for e in obs['events'] if e[0] in ('store', 'call', 'direct')}) >= 2 \
+                    and obs['final'] != obs['start']:
+                res.nontriv(['merge', case, prefix])
+            if dis is not None and ctx.model_ok:
+                ndis += 1
+                if ndis <= 3:
+                    res.disagreements.append(dict(dis, case={'merging': case, 'schedule': prefix}))
+            if viol and not reported:
+                reported = True
+                res.violations.append({'sig': viol[0], 'what': viol[1], 'case': {'merging': case, 'schedule': prefix}})
+            if viol:
+                break
+
+
+# ----------------------------------------------------------------------------------------
 def gen_case(seed, big):
     rng = random.Random(seed)
     nodespec = gen_nodespec(rng, big)
@@ -1391,7 +1618,9 @@ def run(ctx):
     cdir = os.path.join(ctx.verif, 'corpus', PID)
     if os.path.isdir(cdir):
         for fn in sorted(os.listdir(cdir)):
-            cases.append(json.load(open(os.path.join(cdir, fn)))['case'])
+            entry = json.load(open(os.path.join(cdir, fn)))
+            if 'case' in entry:
+                cases.append(entry['case'])
     for _ in range(ctx.budget(600, 9000)):
         cases.append(gen_case(rng.randrange(1 << 40), big))
     recs, reqs = [], []
@@ -1476,6 +1705,7 @@ def run(ctx):
                 'case': {'seed': case['seed'], 'big': case['big'], 'keep': keep},
                 'detail': {'step': idx, 'obs': {k: st['obs'][k] for k in ('reply', 'calls', 'emits')}}})
     run_concurrent(ctx, res, big)
+    run_merging(ctx, res, big)
     res.count('cases', len(recs))
     if skipped:
         res.notes.append(f'{skipped} generated nodes were rejected by frappy itself at creation and skipped')
@@ -1484,6 +1714,19 @@ def run(ctx):
 
 def replay(ctx, rp):
     c = rp['case']
+    if 'merging' in c:
+        from vlib.sched import ReplayThenDefault
+        s, obs = merge_run(c['merging'], ReplayThenDefault(c['schedule']))
+        print('case    :', c['merging'])
+        print('events  :', [e[:2] + [canon(e[2]) if e[0] == 'store' else canonj(e[2])] if len(e) > 2 else e for e in obs['events']])
+        print('calls (thread, payload, cached value at that moment, value given to the driver):')
+        for t, p, cur, v in obs['calls']:
+            print('         ', t, canonj(p), canon(cur), canon(v))
+        print('replies :', obs['replies'])
+        viol, dis = merge_judge(ctx, c['merging'], obs)
+        print('judge   :', viol)
+        print('correspondence:', 'agree' if dis is None else dis)
+        return 1 if viol or dis else 0
     if 'concurrent' in c:
         from vlib.sched import ReplayThenDefault
         s, obs = conc_run(c['concurrent'], ReplayThenDefault(c['schedule']))
